@@ -49,9 +49,14 @@ static std::string gen_pspec(Rng& r, const model::GenOpts& go, int maxlen) {
 
 // ------------------------------------------------------------------ C11
 struct ODResult { int err; size_t off; long start; size_t len; };
-static ODResult on_demand(const char* data, size_t n, const JsonPointer& jp) {
+static ODResult on_demand(const char* data, size_t n, const JsonPointer& jp, bool view_pointer = false) {
   StringView target;
-  ParseResult pr = GetOnDemand(StringView(data, n), jp, target);
+  ParseResult pr;
+  if (view_pointer) {   // the StringView-typed pointer must behave like the std::string one
+    JsonPointerView jv;
+    for (auto& e : jp) { if (e.IsStr()) jv /= JsonPointerNodeView(StringView(e.GetStr())); else jv /= JsonPointerNodeView(e.GetNum()); }
+    pr = GetOnDemand(StringView(data, n), jv, target);
+  } else pr = GetOnDemand(StringView(data, n), jp, target);
   ODResult r;
   r.err = (int)pr.Error(); r.off = pr.Offset();
   r.start = pr.Error() ? -1 : (long)(target.data() - data); r.len = target.size();
@@ -97,7 +102,7 @@ static void exec_c11(const Plan& p, Outcome& out) {
           if (n == 0) b.init(nullptr, 0, places[pl]);
           else { b.base = simmem::caller_buf(text.data(), n, places[pl], hostile, sizeof(hostile) - 1); b.data = b.base; }
           out.detail = "prefix " + std::to_string(n) + " placement " + std::to_string(pl);
-          res[pl] = on_demand(b.data, n, jp);
+          res[pl] = on_demand(b.data, n, jp, pl == 2);
           b.free();
           g_c11_cases++;
         }
